@@ -812,3 +812,34 @@ def a5(ctx):
                           'object) is changed by an operation that should only read it'
                           % (inst(f), what, why), c.loc)
     ctx.analysed['mutator_call_sites'] = n
+
+
+@rule('X1', floor=2, title='the #if arms of an accessor wrapper agree on bounds / null handling across configurations')
+def x1(ctx):
+    """Contradiction rule across preprocessor configurations: if one arm of a wrapper checks the
+    index / the NULL result and another does not, one of them is wrong."""
+    from ..properties import THOROUGH_CONFIGS
+    per = {}
+    for cfg in THOROUGH_CONFIGS:
+        prog = ctx.cxx(cfg)
+        unchecked = {short(prog.funcs[k]): v for k, v in unchecked_index_wrappers(prog).items()}
+        nullable_unchecked = set()
+        for f in live_funcs(prog):
+            if f.body is None:
+                continue
+            for c in calls_in(f.body):
+                if c.kind in CALL_KINDS and callee_func(prog, f, c) is None:
+                    e, why = external_effects(c)
+                    if SWALLOWS in e:
+                        nullable_unchecked.add('%s:%s' % (short(f), c.callee_name()))
+        per[cfg] = (unchecked, nullable_unchecked)
+    for name in ('ListGetItemAs', 'ListGetItem'):
+        vals = {cfg: (name in per[cfg][0]) for cfg in per}
+        ctx.check('%s/bounds-agree' % name, len(set(vals.values())) == 1,
+                  '%s is %s in every configuration %s' % (name, 'unchecked' if list(vals.values())[0] else 'bounds-checked', sorted(vals)),
+                  '%s is bounds-checked in some configurations and unchecked in others: %s' % (name, vals),
+                  None)
+    vals = {cfg: sorted(per[cfg][1]) for cfg in per}
+    ctx.check('DictGetItemAs/swallow-agree', len({tuple(v) for v in vals.values()}) == 1,
+              'error-swallowing dict lookups are the same in every configuration: %s' % (list(vals.values())[0] or 'none'),
+              'error-swallowing dict lookups differ between configurations: %s' % vals, None)
